@@ -92,6 +92,10 @@ def tlc(module, cfg, work, workers=4, timeout=600, extra=None, env=None, heap="4
         e.update(env)
     cmd = ["java", "-XX:+UseParallelGC", "-Xmx" + heap, "-Xss64m", "-cp", TLC_JAR, "tlc2.TLC",
            "-workers", str(workers), "-metadir", os.path.join(d, "meta"), "-config", cfg]
+    if not (extra and "-fp" in extra):
+        # a fixed fingerprint function: the identifiers of the dumped state graphs - and with them every sample drawn
+        # from one - are the same in every run with the same VERIF_SEED (TLC's default is a random one per run)
+        cmd += ["-fp", "0"]
     if extra:
         cmd += extra
     cmd += [module + ".tla"]
